@@ -264,9 +264,28 @@ def build_corpus(config, n, seed):
                 texts.append(''.join(other))
             else:
                 texts.append(base + ' + 1')
-        else:
+        elif k == 9 and rng.random() < 0.5:
             texts.append(base)
             texts.append(base + rng.choice([' + 1', '.a', ' and $', ' +']))
+        else:
+            # texts that a lossy normalisation (whitespace, case, number
+            # spelling) would identify although their trees differ
+            lit = rng.choice(["'a b'", '"x y"', "'Ab'", '`p q`', "'a\tb'"])
+            var = {"'a b'": ["'a  b'", "'a\tb'", "'a b '", "' a b'"],
+                   '"x y"': ['"x  y"', '"x\ty"', '"X y"'],
+                   "'Ab'": ["'ab'", "'AB'", "'Ab '"],
+                   '`p q`': ['`p  q`', '`P q`'],
+                   "'a\tb'": ["'a b'", "'a\t\tb'"]}[lit]
+            shape = rng.choice(['%s', '%s + $', 'f(%s)', '$.g(%s, 1)',
+                                '[%s, 2]', '$a = %s'])
+            texts.append(shape % lit)
+            texts.append(shape % rng.choice(var))
+            if rng.random() < 0.5:
+                texts.append((shape % lit).replace(' ', '  '))
+            n1 = rng.choice(['1', '10', '2.5'])
+            texts.append('$x + %s' % n1)
+            texts.append('$x + %s' % {'1': '1.0', '10': '1.0', '2.5': '2.50'}[n1])
+            texts.append('$X + %s' % n1)
     seen = set()
     out = []
     for t in texts:
@@ -399,12 +418,18 @@ def gen_case(seeds, params, index):
             spec['switch_at'] = sorted(s.randrange(1, 40)
                                        for _ in range(s.randrange(1, 6)))
     else:
-        pol = s.choice(['random', 'pct'])
+        pol = s.choice(['random', 'pct', 'writes'])
         spec = {'policy': pol, 'seed': seeds.sub('sched'),
                 'mean': s.choice([3, 30, 300])}
         if pol == 'pct':
             spec['switch_at'] = sorted(s.randrange(1, 6000)
                                        for _ in range(s.randrange(1, 6)))
+        if pol == 'writes':
+            # switch right after the n-th execution of a (seeded) statement
+            # of ply / yaql that stores into an attribute, subscript or
+            # global; sites are resolved at execution time
+            spec['write_picks'] = [[s.random(), s.randrange(1, 12)]
+                                   for _ in range(s.randrange(1, 5))]
     return {'config': config, 'flavour': flavour, 'preempt': preempt,
             'mode': 'sampled', 'tasks': tasks, 'sched': spec}
 
@@ -412,6 +437,18 @@ def gen_case(seeds, params, index):
 # ---------------------------------------------------------------------------
 # execution
 # ---------------------------------------------------------------------------
+
+def _write_lines():
+    w = _refs.get('__write_lines__')
+    if w is None:
+        import ply
+        w = set()
+        for root in (os.path.join(core.repo_root(), 'yaql', 'language'),
+                     os.path.dirname(os.path.abspath(ply.__file__))):
+            w |= set(sched.find_write_lines(root))
+        w = _refs['__write_lines__'] = frozenset(w)
+    return w
+
 
 def _tracer_files():
     import ply
@@ -434,9 +471,18 @@ def execute(case, stats):
             probe['mid2'] += 1
 
     kw = {}
+    spec = case.get('sched')
     if case.get('preempt') == 'line':
         kw['tracer_files'] = _tracer_files()
-    baton = sched.Baton(sched_spec=case.get('sched'),
+        wl = _write_lines()
+        kw['write_lines'] = wl
+        if spec and spec.get('policy') == 'writes' and 'schedule' not in case:
+            sites = sorted(wl)
+            spec = dict(spec)
+            spec['switch_at_w'] = [
+                list(sites[int(r * len(sites)) % len(sites)]) + [n]
+                for r, n in spec.get('write_picks', [])]
+    baton = sched.Baton(sched_spec=spec,
                         schedule=case.get('schedule'), step_cap=400000,
                         on_switch=on_switch, **kw)
 
